@@ -55,6 +55,21 @@ type XAConn struct {
 	poolClosed  bool   // database/sql gave the connection up while it was held: the keeper owns it
 	physClosed  bool   // the physical connection has been closed
 	transient   bool   // opened by the resource manager for one second-phase command
+	inPhaseOne  bool   // the application is working on the branch (from registration to prepare or rollback)
+}
+
+// phaseOneRunning reports whether the application is still working on the connection's branch: the second
+// phase must not touch the connection then (the coordinator timed the global transaction out, or retries early)
+func (c *XAConn) phaseOneRunning() bool {
+	c.holdMu.Lock()
+	defer c.holdMu.Unlock()
+	return c.inPhaseOne
+}
+
+func (c *XAConn) setPhaseOne(running bool) {
+	c.holdMu.Lock()
+	c.inPhaseOne = running
+	c.holdMu.Unlock()
 }
 
 func (c *XAConn) isActive() bool {
@@ -204,6 +219,7 @@ func (c *XAConn) BeginTx(ctx context.Context, opts driver.TxOptions) (driver.Tx,
 		}
 
 		c.xaBranchXid = XaIdBuild(c.txCtx.XID, c.txCtx.BranchID)
+		c.setPhaseOne(true)
 		c.keepIfNecessary()
 
 		if err = c.start(ctx); err != nil {
@@ -357,6 +373,7 @@ func (c *XAConn) cleanXABranchContext() {
 	c.holdMu.Lock()
 	c.prepareTime = time.Now().Add(h)
 	c.xaActive = false
+	c.inPhaseOne = false
 	kept := c.isConnKept
 	c.holdMu.Unlock()
 	if !kept {
@@ -372,6 +389,8 @@ func (c *XAConn) Rollback(ctx context.Context) error {
 	if !c.isActive() || c.xaBranchXid == nil {
 		return fmt.Errorf("should NOT rollback on an inactive session")
 	}
+	// whatever happens below, the application is done with the branch
+	defer c.setPhaseOne(false)
 
 	if !c.rollBacked {
 		if c.xaResource.End(ctx, c.xaBranchXid.String(), xa.TMFail) != nil {
@@ -402,6 +421,8 @@ func (c *XAConn) Commit(ctx context.Context) error {
 	if !c.isActive() || c.xaBranchXid == nil {
 		return fmt.Errorf("should NOT commit on an inactive session")
 	}
+	// prepared or rolled back below: from then on the branch belongs to the second phase
+	defer c.setPhaseOne(false)
 
 	now := time.Now()
 	if err := c.end(ctx, xa.TMSuccess); err != nil {
